@@ -232,7 +232,16 @@ def r08_4(ctx) -> None:
             continue
         n1 += 1
         z = resolve_all(eng, m, s.node.args[0])
-        enc_side = "encrypt" in m.name
+        # which side: by the public entry point that reaches this method (the private helper may carry any name)
+        names, todo, seen_ = {m.name}, [m], {m}
+        while todo:
+            cur = todo.pop()
+            for cs in eng.cg.callers.get(cur, []):
+                if cs.fn.cls is pu and cs.fn not in seen_:
+                    seen_.add(cs.fn)
+                    names.add(cs.fn.name)
+                    todo.append(cs.fn)
+        enc_side = any("encrypt" in x for x in names) and not any("decrypt" in x for x in names)
         rk, ek_, sk_ = "recipient.recipient_key", "recipient.ephemeral_key", "recipient.sender_key"
         want = f"{ek_}.exchange_derive_key({rk}) + {sk_}.exchange_derive_key({rk})" if enc_side else f"{rk}.exchange_derive_key({ek_}) + {rk}.exchange_derive_key({sk_})"
         got = [x for x in z]
